@@ -7,6 +7,7 @@ import (
 	"os"
 	"strconv"
 	"strings"
+	"unicode/utf8"
 
 	"golang.org/x/tools/go/ssa"
 )
@@ -442,7 +443,9 @@ func (fc *FnCtx) term(v ssa.Value) Val {
 			g.emit(fmt.Sprintf("(assert (= %s %d))", name, id))
 		}
 		x := Val{t: name, ty: c.Type()}
-		fc.vals[v] = x
+		if fc.vals != nil {
+			fc.vals[v] = x
+		}
 		return x
 	case *ssa.Function:
 		name := "|fn!" + sanitize(shortPkg(c.String())) + "|"
@@ -484,6 +487,7 @@ func (fc *FnCtx) constVal(c *ssa.Const) Val {
 			if uq, err := unquoteGo(s); err == nil {
 				str = uq
 			}
+			g.literalFacts(str)
 			return Val{t: smtString(str), ty: t}
 		case u.Info()&types.IsInteger != 0:
 			s := c.Value.ExactString()
@@ -520,4 +524,18 @@ func lastPos(b *ssa.BasicBlock) token.Pos {
 		}
 	}
 	return token.NoPos
+}
+
+// literalFacts: interpreted predicates evaluated on a string literal of the program.  utf8ok(s) ("s is valid UTF-8") is
+// an uninterpreted predicate for the solver; for a literal the verifier evaluates it itself.
+func (g *Gen) literalFacts(str string) {
+	if _, ok := g.cs.UFuncs["utf8ok"]; !ok || !utf8.ValidString(str) {
+		return
+	}
+	k := "utf8ok!" + str
+	if g.declared[k] {
+		return
+	}
+	g.declared[k] = true
+	g.emit(fmt.Sprintf("(assert (|uf!utf8ok| %s))", smtString(str)))
 }
